@@ -318,3 +318,21 @@ pub fn program_has_co_cycle(p: &Program) -> bool {
 pub fn env_existential(p: &Program) -> bool {
     p.traits.iter().any(|t| t.extra > 0) || p.ctors.iter().any(|c| !c.wcs.is_empty() && c.arity >= 2)
 }
+
+/// the goal is a single trait predicate without quantifiers or hypotheses: its table is the root table
+pub fn is_single_root_literal(g: &Goal) -> bool {
+    g.prefix.is_empty() && g.body.len() == 1 && matches!(g.body[0], Lit::Holds(_))
+}
+
+/// qualifier for SLG failures on coinductive cycles: the recorded finding concerns coinductive tables that are
+/// answered as *subgoals* (conjunctions, unknowns, hypotheses, reused solvers); a single root predicate on a
+/// fresh solver is refined correctly on the unchanged tree and gets its own, unlisted class
+pub fn co_qual(g: &Goal, co_cycle: bool) -> &'static str {
+    if !co_cycle {
+        ""
+    } else if is_single_root_literal(g) {
+        ":coinductive-cycle-at-root"
+    } else {
+        ":coinductive-cycle"
+    }
+}
